@@ -125,6 +125,17 @@ fn free_port(nr: u64) -> Option<u16> {
 
 impl Daemon {
     pub fn start(cfg: &DaemonCfg, hashes: &BTreeMap<String, (String, String)>) -> Result<Daemon, String> {
+        let mut last = String::new();
+        for _ in 0..3 {
+            match Self::start_once(cfg, hashes) {
+                Ok(d) => return Ok(d),
+                Err(e) => last = e,
+            }
+        }
+        Err(last)
+    }
+
+    fn start_once(cfg: &DaemonCfg, hashes: &BTreeMap<String, (String, String)>) -> Result<Daemon, String> {
         let nr = NR.fetch_add(1, Ordering::SeqCst);
         let dir = scratch_root().join(format!("d{nr}"));
         let _ = std::fs::remove_dir_all(&dir);
@@ -213,6 +224,11 @@ impl Daemon {
                 match d.request(tr, "GET", "/health", &[], None) {
                     Ok(r) if r.status == 200 => break,
                     other => {
+                        if d.thread.as_ref().map(|t| t.is_finished()).unwrap_or(true) {
+                            let mut d = d;
+                            let r = d.thread.take().map(|t| t.join());
+                            return Err(format!("daemon ended right after start-up: {r:?}"));
+                        }
                         if t0.elapsed() > Duration::from_secs(20) {
                             return Err(format!("daemon does not answer on {tr:?}: {other:?}"));
                         }
